@@ -590,6 +590,26 @@ impl<T> Block for NoCopyFileSink<T>""")]),
     dict(name="m5r4+encoder-waits-for-one-byte", prop="C09", expect="C09.R4:<au::AuEncode as block::Block>::work:need(dst)",
          patch="/verif/neutral_seeded/m5-r4/patch.diff", edits=[],
          post_edits=[E("src/au.rs", "            return Ok(BlockRet::WaitForStream(&self.dst, PCM16_BYTES));", "            return Ok(BlockRet::WaitForStream(&self.dst, 1));")]),
+    dict(name="b1r7+commit-tags-unfiltered", prop="C02", expect="C02.R2:",
+         patch="/verif/neutral_seeded/b1-r7/patch.diff", edits=[],
+         post_edits=[E("src/circular_buffer.rs", "        for tag in tags.iter().filter(|tag| tag.pos() < n) {", "        for tag in tags.iter() {")]),
+    dict(name="b1r7+tags-from-second-lock", prop="C02", expect="C02.R10:circular_buffer::Buffer::read_buf:one-lock",
+         patch="/verif/neutral_seeded/b1-r7/patch.diff", edits=[],
+         post_edits=[E("src/circular_buffer.rs", """        let (start, end, mut tags) = self.with_state(|s| {
+            let (start, end) = s.read_range();
+            (start, end, s.window_tags(start, end))
+        });""", """        let (start, end) = self.with_state(BufferState::read_range);
+        let mut tags = self.with_state(|s| s.window_tags(start, end));""")]),
+    dict(name="b3r7+write-flushed-forgets-flush", prop="C17", expect="C17.R2:",
+         patch="/verif/neutral_seeded/b3-r7/patch.diff", edits=[],
+         post_edits=[E("src/file_sink.rs", "    f.write_all(bytes).and_then(|()| f.flush())", "    f.write_all(bytes)")]),
+    dict(name="b5r7+end-of-pass-always-again", prop="C16", expect="C16.R8:",
+         patch="/verif/neutral_seeded/b5-r7/patch.diff", edits=[],
+         post_edits=[E("src/file_source.rs", """        if !self.repeat.again() {
+            return Ok(false);
+        }""", """        if !self.repeat.again() {
+            return Ok(true);
+        }""")]),
     dict(name="m4r5+macro-no-take", prop="C08", expect="C08.R1:",
          patch="/verif/neutral_seeded/m4-r5/patch.diff", edits=[],
          post_edits=[E("rustradio_macros/src/lib.rs", "#zipped_inputs.take(n).enumerate()", "#zipped_inputs.enumerate()")]),
